@@ -8,10 +8,10 @@ Open Scope Z_scope.
 Lemma typed_all_mt : forall es, entries_typed es = true -> all_mt es = true.
 Proof.
   unfold entries_typed, all_mt. induction es as [|e es IH]; cbn [forallb]; intros H; [reflexivity|].
-  apply andb_true_iff in H as [H1 H2]. apply andb_true_iff in H1 as [H1 _].
+  apply andb_true_iff in H as [H1 H2].
   apply andb_true_iff. split; [exact H1|apply IH; exact H2].
 Qed.
-Definition typed1 (n : name) (m : mtype) : bool := negb (m =? NOMT) && negb ((n =? RDF) && (m =? EMPTYMT)).
+Definition typed1 (n : name) (m : mtype) : bool := negb (m =? NOMT).
 Lemma typed_app : forall a b, entries_typed (a ++ b) = entries_typed a && entries_typed b.
 Proof. intros. unfold entries_typed. apply forallb_app. Qed.
 Lemma typed_m_set : forall p m es es', typed1 p m = true -> entries_typed es = true -> m_set p m es = Some es' -> entries_typed es' = true.
